@@ -15,12 +15,9 @@ func processINT(env *Pass1, operands []ast.Exp) {
 	}
 
 	operandExp := operands[0]
-	var size int32 = 2 // デフォルトは INT imm8 の 2 バイト
-
-	// env (Pass1) が持つ GetConstValue を使って定数値を取得し、INT 3 のサイズを判定
-	if val, ok := env.GetConstValue(operandExp); ok && val == 3 {
-		size = 1 // INT 3 は 1 バイト
-	}
+	// INT n is always emitted as CD ib (two bytes), INT 3 included: the code generator has no
+	// one-byte CC form, so address assignment must not count one.
+	var size int32 = 2
 	env.LOC += size
 
 	// 修正された ast.ExpToString を使ってオペランド文字列を生成し、codegen に渡す
